@@ -658,6 +658,9 @@ pub fn check_history(hist: &Hist, rep: &mut Report) {
                 if w.ttl_ns == 0 {
                     rep.violate("C05", "cleanup/removed-unexpired", format!("value #{id:x} (key {key}) was written by {} without TTL and handed to on_evict at [{}] although the cache had never run short of room (the dearest entries inserted so far cost {total} <= max_cost {})", w.short(), e.seq, hist.h.cfg.max_cost), wit.clone());
                     rep.violate("C04", "cleanup/removed-unexpired", format!("value #{id:x} (key {key}) without TTL swept below capacity"), wit.clone());
+                    if w.op == OP_IF_PRESENT && w.ok {
+                        rep.violate("C09", "if-present/update-swept", format!("{} returned true (an update of value and cost, without TTL); its value was then handed to on_evict by the TTL cleanup", w.short()), wit.clone());
+                    }
                     rep.violate("C03", "cleanup/removed-unexpired", format!("value #{id:x} (key {key}) was written without TTL (by {}) and became invisible through the TTL cleanup", w.short()), wit);
                 } else if e.vnow < w.vcall.saturating_add(w.ttl_ns) && w.vcall != 0 {
                     rep.violate("C05", "cleanup/removed-unexpired", format!("value #{id:x} (key {key}) written by {} at virtual time >= {} with ttl {} ns was handed to on_evict at virtual time {} (seq {}), before its deadline, although the cache had never run short of room", w.short(), w.vcall, w.ttl_ns, e.vnow, e.seq), wit.clone());
